@@ -243,10 +243,15 @@ def extract_lexrules():
 
 
 def render_lexrules(rules):
+    import translate_ms
+    aux = translate_ms.module_patterns(os.path.join(os.environ.get("SIEVELIB_REPO", "/repo"), "sievelib", "parser.py"))
     out = ["import SieveModel.Model.Lexer", "/-! GENERATED by harness/translate.py from Parser.lrules — do not edit. -/", "namespace Generated", "",
            "/-- rule names in source order -/", "def lexRuleNames : List String := %s" % lean_list([r[0] for r in rules], lean_str), "",
            "/-- rule patterns (informational; behaviour is validated by the `lex` suite) -/",
-           "def lexRulePatterns : List String := %s" % lean_list([r[1] for r in rules], lean_str), "", "end Generated"]
+           "def lexRulePatterns : List String := %s" % lean_list([r[1] for r in rules], lean_str), "",
+           "/-- the other regular expressions of the module (how the rules are compiled, white space), in source order -/",
+           "def parserPatterns : List (String × String) := %s" % lean_list(aux, lambda x: "(%s, %s)" % (lean_str(x[0]), lean_str(x[1]))),
+           "", "end Generated"]
     return "\n".join(out) + "\n"
 
 
